@@ -300,6 +300,8 @@ class SimSocket(_RealSocket):
                 raise
         if n < len(data):
             w.stats['short_write'] += 1
+            if n >= 4096:
+                w.stats['short_write_ge4k'] += 1
         if st.io_times is not None:
             st.io_times.append((w.now, 'send', n))
         w.ev(w.ename(), 'send', 'fd=%d %d/%d' % (self._sfd, n, len(data)))
